@@ -118,7 +118,7 @@ manifest = {
     "checks": checks,
     "notes": ("All 18 properties are decided by runtime monitors written for this task (no Miri/ASan: the nightly toolchain cannot build the Soroban dependency tree offline; valgrind memcheck is used for C10). "
               "Two genuine defects were repaired in /repo with 'fix:' commits (ff606be C12, 03dc987 C16); two are recorded in KNOWN_FINDINGS.txt (C04, C11) because their repair would break the unedited suite. "
-              "Sensitivity is documented in DESIGN.md §10: 146 hand mutants, 341 independently written and confirmed seeded changes under seeded/, 19 hand-written and 112 independently written or derived property-preserving changes (benign_seeded/) that must stay silent."),
+              "Sensitivity is documented in DESIGN.md §10: 146 hand mutants, 341 independently written and confirmed seeded changes under seeded/, 19 hand-written and 128 independently written or derived property-preserving changes (benign_seeded/) that must stay silent."),
     "not_applicable": [],
 }
 json.dump(manifest, open(os.path.join(ROOT, "MANIFEST.json"), "w"), indent=1)
